@@ -188,3 +188,36 @@ Proof.
   destruct (flatten_prio e s0 sts HF HD Hh) as (n & En & Pn). destruct (flatten_prio e s0' sts' HF' HD' Hh') as (m & Em & Pm).
   exists n, m. split; [exact En|]. split; [exact Em|]. cbn [map] in E. injection E as E0 Er. now rewrite Pn, Pm, E0, Er.
 Qed.
+
+(* ---------- the side condition, document by document ---------- *)
+(* what is compatible with two values is compatible with their update *)
+Lemma lcompat_upd_l : forall c a b, pwf b -> lcompat a c -> lcompat b c -> lcompat (upd_p a b) c.
+Proof.
+  induction c as [pc [vc|lc]|pc kvc IH] using pp_ind'; intros a b Wb Ha Hb.
+  - exact I.
+  - destruct b as [pn vn|pn kvb]; [|cbn in Hb; contradiction].
+    rewrite upd_p_other by (left; exact I). destruct (ppri a >? ppri (PPS pn vn)); assumption.
+  - destruct b as [pn vn|pn kvb].
+    + rewrite upd_p_other by (left; exact I). destruct (ppri a >? ppri (PPS pn vn)); assumption.
+    + destruct a as [po vo|po kva].
+      * rewrite upd_p_other by (right; exact I). destruct (ppri (PPS po vo) >? ppri (PPD pn kvb)); assumption.
+      * rewrite upd_p_DD. apply lcompat_DD. apply lcompat_DD in Ha. apply lcompat_DD in Hb. inversion Wb as [|? ? Hnd HF]; subst.
+        rewrite Forall_forall in IH, Ha, Hb |- *. intros [k ck] Hin. cbn [fst snd].
+        rewrite (updp_go_get kvb kva k Hnd).
+        specialize (Ha (k, ck) Hin). specialize (Hb (k, ck) Hin). cbn [fst snd] in Ha, Hb.
+        destruct (aget k kva) as [ak|], (aget k kvb) as [bk|] eqn:Eb; cbn [wr]; auto.
+        apply (IH (k, ck) Hin); auto. exact (aget_Forall pwf k kvb bk HF Eb).
+Qed.
+
+(* every document is compatible with every EARLIER one: then the whole history is *)
+Theorem hcompat_pairwise : forall ds d0, Forall pwf ds ->
+  ForallOrdPairs lcompat (d0 :: ds) -> hcompat d0 ds.
+Proof.
+  induction ds as [|d r IH]; intros d0 HW HP; [exact I|].
+  inversion HW as [|? ? Wd Wr]; subst.
+  inversion HP as [|? ? H0 HP']; subst. inversion H0 as [|? ? H0d H0r]; subst.
+  inversion HP' as [|? ? Hd HPr]; subst.
+  cbn [hcompat]. split; [exact H0d|]. apply IH; [exact Wr|].
+  constructor; [|exact HPr].
+  rewrite Forall_forall in H0r, Hd |- *. intros x Hx. apply lcompat_upd_l; auto.
+Qed.
